@@ -10,3 +10,8 @@ package csproto
 //@ func GetExtension(msg interface{}, ext interface{}) (v interface{}, err error)
 //@   trusted delegates to the protobuf runtimes' GetExtension; modelled as a read of the ghost slot of (msg, ext)
 //@   ensures v == gocv_extSlot(msg, ext).val && err == gocv_extSlot(msg, ext).err
+
+//@ func SetExtension(msg interface{}, ext interface{}, val interface{}) (err error)
+//@   trusted delegates to the protobuf runtimes' SetExtension; modelled as a write of the ghost slot of (msg, ext)
+//@   ensures implies(err == nil, gocv_extSlot(msg, ext).val == val && gocv_extSlot(msg, ext).err == nil)
+//@   modifies *gocv_extSlot(msg, ext)
